@@ -1,6 +1,7 @@
 -- @component loader loaderExpected
 -- @component walk walkExpected
 import Chewing.Model.Loader
+import Chewing.Model.UhashEnc
 import Chewing.Model.TrieWalk
 import Chewing.Model.Syllable
 import Chewing.Driver.Util
@@ -10,6 +11,7 @@ import Chewing.Driver.Util
     loader start  <dat> <uhash> => ok <dict entries> <dat after close> | err <dat after> | panic
     loader cstart <dat> <uhash> => ok <dat after close> | null <dat after> | abort
     loader learn  <dat> <entry> => <dat after close>
+    loader encbin <lifetime bytes> G:<stored records> => <file bytes> valid|invalid <live records>
     walk entries <index bytes> <dataLen> <leaf table>                    => ok <n> <syls>/<phrase>… | panic | hang
     walk lookup  <index bytes> <dataLen> <leaf table> <s|f> <first> <q>  => ok <n> <phrase>…        | panic | hang
 
@@ -52,6 +54,12 @@ def datOf (s : String) : Option (Option Loader.DatFile) :=
 
 def uhashOf (s : String) : Option (List Nat) := if s == "-" then none else some (unhex s)
 
+/-- `<syls>/<x-hex phrase>/<f>,<t>,<m>,<o>/<deleted 0|1>` -/
+def grecOf (s : String) : Option Uhash.GRec :=
+  match s.splitOn "/" with
+  | [sy, ph, fs, d] => some { syls := sylsOf sy, phrase := unhex ph, fields := (fs.splitOn ",").map natOf, deleted := d == "1" }
+  | _ => none
+
 end Legacy
 open Legacy
 
@@ -79,6 +87,13 @@ def loaderExpected (fn : String) (args : List String) : Option String :=
            | .error _ => "null " ++ datS l.dir.chewingDat)
         | .panic _ => "abort"
         | .outOfFuel => "hang")
+  | "encbin", [lt, gs] =>
+    let rs := (splitNonEmpty (gs.drop 2).toString ";").map grecOf
+    if rs.all Option.isSome then
+      let rs := rs.filterMap id
+      some (hexBytes 'b' (Uhash.encodeBin (unhex lt) rs) ++ (if rs.all (fun g => decide g.Valid) then " valid " else " invalid ")
+        ++ "D:" ++ ";".intercalate ((Uhash.liveRecs rs).map fun r => entryS ((r.syls, r.phrase), (r.freq, r.time))))
+    else none
   | "learn", [dat, e] =>
     match datOf dat, entryOf e with
     | some (some (.valid m)), some (k, v) => some (mapS (Loader.insert m k v))
